@@ -184,6 +184,42 @@ def run(ctx):
     # end to end: one seed, every mode (listing with and without -j, sequential, -j N)
     from harness import corr_c03
     corr_c03.shuffle_modes(ctx)
+    noise_cases(ctx)
+
+
+def noise_cases(ctx):
+    """"seed-determined": the order for a seed does not depend on what other threads of the process do with the
+    `random` module while the shuffle runs (test modules are imported - and may have started threads - before it)"""
+    import random as _random
+    import sys
+    import threading
+    rng = ctx.rng
+    stop = threading.Event()
+
+    def noise():
+        while not stop.is_set():
+            _random.random()
+    for k in range(3 if ctx.quick() else 20):
+        layers = [("wl.L%d" % i, list(range(i * 1000, i * 1000 + rng.choice([150, 300])))) for i in range(rng.choice([2, 3]))]
+        seed = rng.randint(0, 10 ** 9)
+        ref = real_shuffle(layers, seed)[0]
+        stop.clear()
+        th = threading.Thread(target=noise, daemon=True)
+        old_int = sys.getswitchinterval()
+        sys.setswitchinterval(1e-6)
+        th.start()
+        try:
+            got = [real_shuffle(layers, seed)[0] for _ in range(3)]
+        finally:
+            stop.set()
+            th.join()
+            sys.setswitchinterval(old_int)
+        ctx.count(("noise", seed, len(layers)), nontrivial=True, sample=None)
+        ctx.bump("noise-thread")
+        if any(g != ref for g in got):
+            ctx.violation("seed %d: the shuffled order changes when another thread uses the random module during the "
+                          "shuffle" % seed, {"seed": seed, "sizes": [len(x[1]) for x in layers]},
+                          signature="C11:shared-generator")
 
 
 def seed_handover(ctx):
